@@ -204,16 +204,18 @@ Definition band_cands (lib : list amp) (groups : list mgroup) (sel : list string
                      | None => []
                      end) (dedup (members_of groups sel)).
 
-(* preselect_multiband_amps: band after band (bmin, bmax, gain target, power target), keep the multiband models that
-   list an amplifier passing the gain/power filter (Raman always allowed here); returns the surviving models *)
-Fixpoint preselect (lib : list amp) (groups : list mgroup) (ext : Q) (sel : list string)
+(* preselect_multiband_amps: band after band (bmin, bmax, gain target, power target), keep - among the permitted
+   multiband models restr0, in their order - those that list an amplifier passing the gain/power filter (Raman always
+   allowed here); returns the surviving models *)
+Fixpoint preselect (lib : list amp) (groups : list mgroup) (ext : Q) (restr0 sel : list string)
                    (bts : list (Q * Q * Q * Q)) : res (list string) :=
   match bts with
   | [] => Ok sel
   | (bmin, bmax, gain, pt) :: rest =>
       let* acc := acc_gain true gain (band_cands lib groups sel bmin bmax) in
       let chosen := map a_name (acc_power ext gain pt acc) in
-      preselect lib groups ext (dedup (flat_map (groups_of groups) chosen)) rest
+      let union := flat_map (groups_of groups) chosen in
+      preselect lib groups ext restr0 (filter (fun m => smem m union) restr0) rest
   end.
 
 (* the selection of one band's amplifier once restrictions_edfa is known: the per band filter of
@@ -234,7 +236,7 @@ Definition multi_redfa (nd : anode) (prev next : neigh) (lib : list amp) (groups
     | None => Err "KeyError:type_variety"
     end
   else
-    let* sel := preselect lib groups ext mr bts in Ok (mr, members_of groups sel).
+    let* sel := preselect lib groups ext mr mr bts in Ok (mr, members_of groups sel).
 
 (* find_type_variety: the chosen single-band entries must belong to one multiband model of the library *)
 Definition common_groups (groups : list mgroup) (chosen : list string) : list string :=
